@@ -31,7 +31,11 @@ PROP = {
         "files": ["htlcswitch/c07_test.go"],
         "shards": {"quick": 8, "thorough": 16},
         "watchdog": {"quick": 600, "thorough": 3000},
-        "floors": {},
+        "floors": {"quick": {"ops": 30000, "model_compare_evals": 50000, "fork_restarts": 15000,
+                             "fork_second_restarts": 7000, "fork_trimmed_keystones": 5000,
+                             "fork_purged_circuits": 2500, "fork_kept_by_resolution": 400,
+                             "dup_failed_back_after_restart": 2000, "dup_dropped_has_keystone": 2500,
+                             "second_response_rejected": 400, "write_failures_injected": 1000}},
     }, {
         "name": "conc", "pkg": "htlcswitch", "test": "TestVerifC07Conc",
         "files": ["htlcswitch/c07_test.go", "htlcswitch/c07conc_test.go"],
@@ -40,6 +44,6 @@ PROP = {
         "shards": {"quick": 8, "thorough": 16},
         "watchdog": {"quick": 600, "thorough": 3000},
         "gomaxprocs": 4,
-        "floors": {},
+        "floors": {"quick": {"histories_linearizable": 800, "conc_ops": 19000}},
     }],
 }
